@@ -177,6 +177,27 @@ def run(ctx):
             except Exception as e:   # noqa
                 fail('tsv|raises|%s' % type(e).__name__, 'tsv round trip raised %r' % e, case)
             # ---------------- pickle: exact, typed
+            # ---------------- the target given as an os.PathLike: writer and reader must treat the name alike
+            if ci % 4 == 1:
+                import pathlib
+                for pext in ('.csv', '.csv.gz', '.csv.bz2', '.csv.bgz'):
+                    try:
+                        pp = pathlib.Path(path(pext))
+                        etl.tocsv(T, pp, encoding='utf-8')
+                        etl.appendcsv(T2, pp, encoding='utf-8')
+                        back = [tuple(r) for r in etl.fromcsv(pp, encoding='utf-8')]
+                        want = [as_text(r) for r in T + T2[1:]]
+                        ctx.case(('csv-pathlike', repr(T), pext))
+                        ctx.count('csv:pathlike')
+                        if back != want and all(len(r) > 0 for r in T):
+                            fail('csv|roundtrip|pathlike', 'tocsv/appendcsv to a pathlib.Path then fromcsv of the same Path does not return the rows',
+                                 {'table': repr(T), 'table2': repr(T2), 'name': pext, 'got': repr(back)})
+                        pq = pathlib.Path(path('.p' + pext[4:]))
+                        etl.topickle(T, pq)
+                        if [tuple(r) for r in etl.frompickle(pq)] != [tuple(r) for r in T]:
+                            fail('pickle|roundtrip|pathlike', 'topickle to a pathlib.Path then frompickle of the same Path does not return the rows', {'table': repr(T), 'name': pext})
+                    except Exception as e:   # noqa
+                        fail('csv|raises|%s|pathlike' % type(e).__name__, 'round trip through a pathlib.Path target raised %r' % e, {'table': repr(T), 'name': pext})
             PT = [hdr] + [[rng.choice(TYPED + [datetime.date(2020, 1, 2), decimal.Decimal('1.5'), (1, 'a'), b'by', rand_text(rng, 'utf-8')]) for _ in range(w)]
                           for _ in range(rng.choice([0, 1, 3]))]
             try:
